@@ -40,6 +40,8 @@ CONTEXT = {
     "return": ("    return ", ";"), "letunderscore": ("    let _ = ", ";"), "afterstring": ('    let _s = "str"; ', ";"),
     "aftermultibyte": ("    /* \u00e9\u4e16 */ ", ";"), "break": ("    loop { break ", "; }"),
     "tabindent": ("\t\t", ";"),
+    # a string literal containing comment openers earlier on the same line
+    "afterurl": ('    let _u = "http://example.org/*x"; ', ";"),
     # an already referenced statement (in both styles) with multi-byte text earlier on the same line
     "afterstmt": ('    warn!(ref = 5; "[ref: 5] pr\u00e9 \u4e16"); ', ";"),
 }
